@@ -139,18 +139,28 @@ class Prop:
                            'Model/Gr.v h_step vs apply_disconnect / process_effects / timer handlers / unregister_peer on a real '
                            'PeerContext + TableManager (harness/daemon/event_gr_hx.rs)')
     rule = ('pure machine: every input sequence of length <= d over a 13-letter alphabet (2 families, GR/LLGR parameter classes) '
-            'plus seeded random sequences; glue: seeded random event histories of one peer (up/announce/eor/down with each reason/'
-            'failed connect/timer expiries/force-down/admin-down), mostly GR-eligible plus a stream per known class; '
-            'a case is non-trivial when a route is retained stale at some step; distinct = distinct observation trajectories')
+            'plus seeded random sequences; glue: seeded random event histories of one peer (up with derived local/remote GR and LLGR '
+            'capabilities, announce with two path ids per prefix, eor, down with each reason class, failed connect, timer expiries, '
+            'force-down, admin-down), including reconnects that do / do not re-negotiate GR/LLGR, GR/LLGR families outside each other '
+            'and outside the session families; a case is non-trivial when a route is retained stale at some step; '
+            'distinct = distinct observation trajectories')
     exhaustive = {'quick': True, 'thorough': True}
-    trusted_base = ['glue call sites that are inline in session_loop()/run() (the disconnect block, the admin-down override, the '
-                    'End-of-RIB gate on negotiated_gr) are replicated line by line in harness/daemon/event_gr_hx.rs; '
-                    'apply_disconnect, gr_on_disconnect, families_to_drop_on_disconnect, process_effects, unregister_peer, '
-                    'gr_restart_timer_expired, llgr_timer_expired, spawn_llgr_timers, force_down run as they are',
+    trusted_base = ['the glue runs as it is on a real Global / PeerContext / TableManager / PeerSession::new_for_test: apply_outputs '
+                    '(PeerCodec::negotiate, negotiate_gr, negotiate_llgr, on_established, the effects it raises), process_effects, '
+                    'PeerSession::teardown (the end of session_loop, split out by a behaviour-preserving hook commit), apply_disconnect, '
+                    'gr_on_disconnect, families_to_drop_on_disconnect, unregister_peer, gr_restart_timer_expired, llgr_timer_expired, '
+                    'spawn_llgr_timers, force_down, Global::add_peer',
+                    'still hand-built by the harness: the two FSM outputs SessionNegotiated / SessionEstablished fed to apply_outputs '
+                    '(PeerFsm itself is property C07), the GrEorReceived effect together with its gate on negotiated_gr (replica of three '
+                    'lines of the UPDATE receive path), the initial DisconnectInfo of a connection that never established, the order '
+                    'teardown -> apply_disconnect of run(), the admin_down field set directly on the Peer record (not through the gRPC handler)',
                     'timers are fired through their oneshot sender (the RunNow path); a timer counts as armed while its sender is '
-                    'present and not closed; wall-clock expiry is not exercised']
+                    'present and not closed; wall-clock expiry is not exercised; LLGR/restart durations are observed as negotiated values, '
+                    'not as the durations handed to tokio']
     assumptions = ['one peer, one shard; the restarting-speaker role (selection_deferral) is inactive',
-                   'at most one Established session at a time (property C07)']
+                   'at most one Established session at a time (property C07)',
+                   'a route is identified by (family, prefix, path id); attributes other than the NO_LLGR / LLGR_STALE communities, '
+                   'best-path order and distribution to other peers are outside the model']
 
     def case_to_val(self, c):
         if c['kind'] == 'gr':
